@@ -49,7 +49,7 @@ def _slice(a, b):
     doc, tok = C.doc, C.tok
     if not (-2 <= a <= C.size + 2 and -2 <= b <= C.size + 2) or not in_chunk(a):
         return rt.SKIP
-    if 0 <= a <= C.size and 0 <= b <= C.size and (splits_surrogate(tok, a) or splits_surrogate(tok, b)):
+    if 0 <= a <= C.size and 0 <= b <= C.size and (C.is_split(a) or C.is_split(b)):
         return rt.SKIP
     got = {}
     try:
@@ -118,7 +118,7 @@ def _replace(a, b, si):
     doc, tok = C.doc, C.tok
     if not (0 <= a <= b <= C.size and 0 <= si < len(SL)) or not in_chunk(a):
         return rt.SKIP
-    if splits_surrogate(tok, a) or splits_surrogate(tok, b):
+    if C.is_split(a) or C.is_split(b):
         return rt.SKIP
     if "si" in P and si != P["si"]:
         return rt.SKIP
@@ -143,7 +143,7 @@ def _reinsert(a, b):
     doc, tok = C.doc, C.tok
     if not (0 <= a <= b <= C.size) or not in_chunk(a):
         return rt.SKIP
-    if splits_surrogate(tok, a) or splits_surrogate(tok, b):
+    if C.is_split(a) or C.is_split(b):
         return rt.SKIP
     r = doc.replace(a, b, doc.slice(a, b))          # must not raise
     ok = r.eq(doc) and doc.eq(r)
@@ -170,7 +170,7 @@ def _cross(a, b, c, d):
         return rt.SKIP
     if "b" in P and b != P["b"]:
         return rt.SKIP
-    if splits_surrogate(tok, a) or splits_surrogate(tok, b) or splits_surrogate(SRC.tok, c) or splits_surrogate(SRC.tok, d):
+    if C.is_split(a) or C.is_split(b) or SRC.is_split(c) or SRC.is_split(d):
         return rt.SKIP
     sl = SRC.doc.slice(c, d)
     r, exc = None, None
